@@ -353,3 +353,46 @@ func HarnessStripE2E() {
 	vCover(toSub && strip, "stripped reachable")
 	vCover(!toSub, "root service reachable")
 }
+
+// HarnessBodyUntouched: the request body belongs to the target. A POST whose body is form-encoded / multipart / JSON,
+// through Router -> Service (with or without rollout targets and a split, with or without the rollout cookie) -> the
+// target's handler: nothing on the way has read from the body or closed it (the proxy's own request buffering is off
+// here; it is C14's subject).
+func HarnessBodyUntouched() {
+	vFixMapOrderType("requestServiceMap")
+	vSortMode = 0
+	s, err := NewService("svc", ServiceOptions{Hosts: []string{"h"}, PathPrefixes: []string{"/"}}, TargetOptions{HealthCheckConfig: HealthCheckConfig{Path: "/up"}})
+	vAssert(err == nil, "body: service builds")
+	s.active = vBalancer("t-active:80")
+	withRollout := vBool("rollout")
+	if withRollout {
+		s.UpdateLoadBalancer(vBalancer("t-rollout:80"), TargetSlotRollout)
+		vAssert(s.SetRolloutSplit(vChoose("pct", 3)*50, []string{"vip"}) == nil, "body: split accepted")
+	}
+	r := NewRouter("/state")
+	r.services.Set(s)
+	body := &vChunkReader{chunks: [][]byte{[]byte("kamal-rollout=vip&a=1")}}
+	reads := 0
+	body.onRead = func(int) { reads++ }
+	req := &http.Request{Method: "POST", URL: &url.URL{Path: "/submit"}, Host: "h", Header: http.Header{}, Body: body, ContentLength: 21, RemoteAddr: "1.2.3.4:5"}
+	switch vChoose("content_type", 3) {
+	case 0:
+		req.Header.Set("Content-Type", "application/x-www-form-urlencoded")
+	case 1:
+		req.Header.Set("Content-Type", "multipart/form-data; boundary=x")
+	case 2:
+		req.Header.Set("Content-Type", "application/json")
+	}
+	if vBool("has_cookie") {
+		req.Header["Cookie"] = []string{RolloutCookieName + "=vip"}
+	}
+	w := vNewRecorder()
+	r.ServeHTTP(w, req)
+	w.finish()
+	vAssert(w.status == 200 && len(vForwards) == 1, "body: the request is forwarded once")
+	if len(vForwards) == 1 {
+		vAssert(vForwards[0].req.Body == body, "body: the target is handed the client's body")
+	}
+	vAssert(reads == 0 && body.i == 0 && body.closed == 0, "body: nothing before the target reads or closes the request body")
+	vCover(withRollout, "rollout reachable")
+}
